@@ -146,6 +146,13 @@ func generate(r *runner.Run, emit func(job) bool) {
 	// into the next (e.g. a recycled header map) is observable
 	flush(cs, batchMax)
 
+	// ---- sweep "layers": what the route's admission / authentication layers are configured to do with the request
+	// (layers_test.go): layer x header set (incl. entity headers) x framing x body sizes around every configured limit;
+	// one batch carries consecutive requests of one route
+	for _, lc := range layerCases(r) {
+		flush(lc, batchMax)
+	}
+
 	// ---- sweep "unicode": one representative per (general category x plane) and the escaping boundary cases,
 	// as header value and as payload, through ingress / publish / Store.Enqueue (unicode_test.go)
 	{
